@@ -86,7 +86,8 @@ class Pristine:
     """Renders renderables on a hook-free console of the same geometry and turns the
     bytes into screen rows (cells with styles) through the terminal model."""
 
-    def __init__(self, width, height, color_system, clock=None):
+    def __init__(self, width, height, color_system, clock=None, terminal=True):
+        self.terminal = terminal
         self.width = width
         self.height = height
         self.color_system = color_system
@@ -98,7 +99,7 @@ class Pristine:
         kw = {}
         if self.clock is not None:
             kw = {"get_time": self.clock.time, "get_datetime": self.clock.datetime}
-        return Console(file=io.StringIO(), width=self.width, height=self.height, force_terminal=True,
+        return Console(file=io.StringIO(), width=self.width, height=self.height, force_terminal=self.terminal,
                        color_system=self.color_system, _environ={}, log_time=False, log_path=False, **kw)
 
     def bytes(self, fn):
@@ -108,7 +109,9 @@ class Pristine:
 
     def rows(self, fn):
         """fn(console) prints something; returns the list of rows (cells) it occupies."""
-        data = self.bytes(fn)
+        return self.rows_of_bytes(self.bytes(fn))
+
+    def rows_of_bytes(self, data):
         scr = term.Screen(self.width, 100000)
         scr.feed(data)
         rows = [scr.cells(r) for r in range(len(scr.rows))]
